@@ -85,6 +85,20 @@ class C20(Check):
                     if tier == "quick" and rng.random() < 0.5:
                         continue
                     add(rng.choice([2, 3]), [prog(3, 1, v1, f1, m1), prog(4, 1, v2, f2, m2)], goods)
+        # physical (load) address different from the virtual one (ROM images, AT(...) in linker scripts, p_paddr left 0):
+        # the image lives at the VIRTUAL addresses; physical addresses that collide, swap or wrap change nothing
+        def with_paddr(p, pa):
+            return dict(p, paddr=a8(pa))
+        for v in addrs[:8]:
+            for pa in (0, 0x80000000, v + 4, (v - 8) % 2 ** 64, 0xFFFFFFFFFFFFFFF8):
+                if pa == v:
+                    continue
+                add(2, [with_paddr(prog(6, 1, v, 8, 12), pa)], goods, entry=v)
+        for (v1, v2) in ((0x1000, 0x2000), (0x1000, 0x1008), (0x1008, 0x1000), (0, 0x100000000)):
+            for (p1, p2) in ((v2, v1), (0, 0), (v1, v1), (0x5000, 0x5004), (v1, v2 + 0x100)):
+                add(rng.choice([2, 3]), [with_paddr(prog(7, 1, v1, 8, 8), p1), with_paddr(prog(8, 1, v2, 4, 8), p2)], goods)
+        # segments that overlap virtually although their physical addresses are disjoint
+        add(2, [with_paddr(prog(7, 1, 0x1000, 8, 8), 0x1000), with_paddr(prog(8, 1, 0x1004, 8, 8), 0x9000)], goods)
         # single sections / pairs
         for stype in (1, 8, 3):
             for flags in (6, 2, 4, 0, 7):
